@@ -210,6 +210,7 @@ deriving Repr, DecidableEq
 /-- effects on the file system, in program order -/
 inductive Eff where
   | mkdir (path : Bytes)
+  | remove (path : Bytes)                      -- fs::remove (no error if absent)
   | create (path : Bytes)                      -- file_create: open(O_RDWR|O_CREAT), no truncation
   | write (path : Bytes) (off : Nat) (buf : Bytes)   -- file_write on the file opened at `path`
   | close (path : Bytes)
